@@ -203,7 +203,8 @@ def run(tier: str, seed: int) -> int:
         cov['exhaustive'] = True
         cov['rule'] = ('run-length code: all strings of <= 3 runs over {0,1,255} x lengths {1,2,254,255,256,511}; table machine: '
                        '3 items, tables <= 4 (5 thorough), sub-lists <= 3, every transition replayed; 2592 enumerated worlds + '
-                       'seeded random worlds on 6 layouts; 13 static prop formats; 23 boundary values per integer field')
+                       'seeded random worlds on 6 layouts; 13 static prop formats; 23 boundary values per integer field; count / index / packed '
+                       'fields at the reader-derived maximum, +1 and at the full field width (lists of n references to one object)')
         sigs = model_sigs + [sig_of(m) for m in allm]
         # the deferred-offset writer every binary writer relies on (binformat.DeferredWrites)
         from props import sub_deferred
